@@ -37,9 +37,9 @@ again fresh sub-agents, a different mechanism each). "Missed ..." rows are chang
 did not report; the check was then strengthened (never the other way round) and the change re-verified. The second-round
 change C07-2 (a foreign-key cascade) was at first reported by C08 only; since the txpipe schema has a composite cascading
 foreign key C07 reports it itself (C03-2 likewise by C03 and C08). Third round: C25-3 C33-3 C39-3 were reported at once
-(C13-3 at once by C28, and by C13 after C13 got the values' own `Compare` as a second oracle); C08-3 C35-3 C36-3 C41-3
-C42-3 were missed and the checks strengthened (index-first recursive schema; copy-isolation family; in-place change of
-a range; account without a password hash; exits through a nested `t.Query` block). After the last change of the second
+(C13-3 at once by C28, and by C13 after C13 got the values' own `Compare` as a second oracle); C08-3 C28-3 C35-3 C36-3
+C41-3 C42-3 were missed and the checks strengthened (index-first recursive schema; row-backed records nested in objects;
+copy-isolation family; in-place change of a range; account without a password hash; exits through a nested `t.Query` block). After the last change of the second
 round all 68 changes stored then were run once more against the checks (`/verif/seeded/RESULTS.md`); the third-round
 rows record the run of the strengthened check; so are the ~210 overlay-only mutants (`./mutants_all.sh`).
 
